@@ -741,4 +741,58 @@ def checkProg (p : Prog) : R Unit := do
 
 def accepts (p : Prog) : Bool := match checkProg p with | .ok _ => true | .error _ => false
 
+/-! ### Literal variables (declarative: "there is an assignment of types")
+
+  A tiny language about variables bound to unsuffixed literals, whose types the
+  manual leaves to inference: `let y = 1;` may be any integer type, `let y = 1.5;`
+  any float type, but ONE type per variable. A script of this language is
+  well-typed iff some assignment of a numeric type to every variable satisfies
+  every statement — decided here by trying all assignments (no inference). -/
+
+inductive LStmt
+  /-- `let x = 1;` (`isFloat`: `let x = 1.5;`) -/
+  | lit (x : Nat) (isFloat : Bool)
+  /-- `let x = y;` -/
+  | alias (x y : Nat)
+  /-- `-x` occurs -/
+  | neg (x : Nat)
+  /-- `x` is used where a value of type `t` is required -/
+  | use (x : Nat) (t : Ty)
+  /-- `x < y` / `x == y` occurs -/
+  | cmp (x y : Nat)
+  deriving Repr
+
+def numericTys : List Ty :=
+  [.int .u8, .int .u16, .int .u32, .int .u64, .int .i8, .int .i16, .int .i32, .int .i64, .f32, .f64]
+
+def isGroundInt : Ty → Bool | .int _ => true | _ => false
+def isGroundFloat : Ty → Bool | .f32 | .f64 => true | _ => false
+
+/-- does the assignment (a list: variable `i` has type `a[i]`) satisfy the statement? -/
+def LStmt.holds (a : List Ty) : LStmt → Bool
+  | .lit x isFloat => match a[x]? with
+    | some t => if isFloat then isGroundFloat t else isGroundInt t
+    | none => false
+  | .alias x y => match a[x]?, a[y]? with
+    | some t, some u => t == u
+    | _, _ => false
+  | .neg x => match a[x]? with
+    | some t => isNegatable t
+    | none => false
+  | .use x t => match a[x]? with
+    | some u => u == t
+    | none => false
+  | .cmp x y => match a[x]?, a[y]? with
+    | some t, some u => t == u
+    | _, _ => false
+
+/-- all assignments of numeric types to `n` variables -/
+def assignments : Nat → List (List Ty)
+  | 0 => [[]]
+  | n + 1 => (assignments n).flatMap fun a => numericTys.map fun t => t :: a
+
+/-- the script has a typing -/
+def ltypable (n : Nat) (prog : List LStmt) : Bool :=
+  (assignments n).any fun a => prog.all (LStmt.holds a)
+
 end RotoV.Typing
